@@ -328,6 +328,16 @@ theorem c01_gro_line_width (p : Nat) (resSeq : Int) (resName atomName : List Cha
   simp only [groAtomLine, groField, List.length_append, e1, e2, e3, e4, e5, e6, e7]
   omega
 
+/-- **the CRYST1 record has 71 columns** (the 70 of the format and a trailing blank) when the cell fits its fields (edges below 100000 Å, i.e. 10 µm; angles below 1000°): beyond that the
+fields grow and run together — where an independent reader takes other numbers from the fixed columns -/
+theorem c01_cryst1_width (a b c al be ga : Rat) (h1 : Fits 9 3 a) (h2 : Fits 9 3 b) (h3 : Fits 9 3 c)
+    (h4 : Fits 7 2 al) (h5 : Fits 7 2 be) (h6 : Fits 7 2 ga) : (cryst1Line a b c al be ga).length = 71 := by
+  simp only [cryst1Line, List.length_append, fits_length _ _ _ h1, fits_length _ _ _ h2, fits_length _ _ _ h3,
+    fits_length _ _ _ h4, fits_length _ _ _ h5, fits_length _ _ _ h6, List.length_cons, List.length_nil, List.length_replicate]
+
+/-- a cell edge of 200 µm takes eleven columns of its nine: the following field starts two columns late -/
+theorem c01_cryst1_overflow_witness : (fmtFixed 9 3 (2000000 : Rat)).length = 11 := by decide +kernel
+
 end MdVerif.Txt
 
 namespace MdVerif.Txt
